@@ -248,8 +248,10 @@ class CFG:
 
     # ------------------------------------------------------------ loops
     def _for(self, st: ast.For, preds: List[Edge]) -> List[Edge]:
-        if isinstance(st.iter, (ast.Tuple, ast.List)) and 0 < len(st.iter.elts) <= 8 and isinstance(st.target, ast.Name) and not st.orelse \
-                and not any(isinstance(e, ast.Starred) for e in st.iter.elts):
+        if isinstance(st.iter, (ast.Tuple, ast.List)) and 0 < len(st.iter.elts) <= 8 and not st.orelse \
+                and not any(isinstance(e, ast.Starred) for e in st.iter.elts) and \
+                (isinstance(st.target, ast.Name) or (isinstance(st.target, (ast.Tuple, ast.List)) and all(isinstance(t, ast.Name) for t in st.target.elts)
+                                                     and all(isinstance(e, (ast.Tuple, ast.List)) and len(e.elts) == len(st.target.elts) for e in st.iter.elts))):
             return self._unrolled_for(st, preds)
         body_set: Set[int] = set()
         it = self._simple("for_iter", st, preds)
@@ -279,9 +281,16 @@ class CFG:
         breaks: List[Edge] = []
         cur = preds
         for elt in st.iter.elts:
-            asg = ast.copy_location(ast.Assign(targets=[ast.Name(id=st.target.id, ctx=ast.Store())], value=elt), st)
-            ast.fix_missing_locations(asg)
-            n = self._simple("stmt", asg, cur, origin=st)
+            if isinstance(st.target, ast.Name):
+                pairs = [(st.target.id, elt)]
+            else:       # for a, b in ((x1, y1), (x2, y2)): one assignment per name
+                pairs = [(t.id, v) for t, v in zip(st.target.elts, elt.elts)]
+            n = None
+            for name, val in pairs:
+                asg = ast.copy_location(ast.Assign(targets=[ast.Name(id=name, ctx=ast.Store())], value=val), st)
+                ast.fix_missing_locations(asg)
+                n = self._simple("stmt", asg, cur, origin=st)
+                cur = [(n.id, None)]
             ctx = {"stmt": st, "breaks": [], "continues": []}
             self._loop_stack.append(ctx)
             # the body's AST nodes are shared between the copies; CFG nodes are distinct
